@@ -218,7 +218,19 @@ def build_go(race=False):
 def batch(exe, lines, timeout=600):
     """Feed request lines to a line-protocol process, return answer lines."""
     data = ("\n".join(lines) + "\n").encode()
-    p = subprocess.run([exe], input=data, stdout=subprocess.PIPE, stderr=subprocess.PIPE, timeout=timeout)
+
+    def big_stack():
+        # the extracted model uses Coq's (non-tail-recursive) list functions: give it a deep stack for long requests
+        import resource
+        try:
+            resource.setrlimit(resource.RLIMIT_STACK, (resource.RLIM_INFINITY, resource.RLIM_INFINITY))
+        except (ValueError, OSError):
+            try:
+                hard = resource.getrlimit(resource.RLIMIT_STACK)[1]
+                resource.setrlimit(resource.RLIMIT_STACK, (hard, hard))
+            except (ValueError, OSError):
+                pass
+    p = subprocess.run([exe], input=data, stdout=subprocess.PIPE, stderr=subprocess.PIPE, timeout=timeout, preexec_fn=big_stack)
     out = p.stdout.decode("utf-8", "replace").split("\n")
     if out and out[-1] == "":
         out.pop()
